@@ -89,6 +89,8 @@ def run(chk):
       'fitness values are distinct per individual (tie order of Top/Bottom is not compared)',
       'the exact result of | & - ^ ~ is compared only when no operand contains the same individual twice',
       'float decisions are compared in thousandths',
+      'history independence is exact for operators without random state; for seeded operators two instances with the '
+      'same seed must agree along the same call sequence',
   ]
   stats = collections.Counter()
   # 1. design level: the algebra preserves the selector contract
@@ -135,6 +137,11 @@ def run(chk):
         stats['swap_changed_dna'] += 1
       if ev['raised']:
         stats['raised:' + ev['cls']] += 1
+      if ev['calls']:
+        stats['instance_reuse_calls' + (':no_random_state' if ev['rngfree'] else ':seeded')] += len(ev['calls'])
+        stats['instance_reused:' + ev['cls']] += 1
+        if any(c['out'] != ev['calls'][1]['out'] for c in ev['calls'] if c['what'].startswith('value-equal')):
+          stats['new_fitness_changed_result:' + ev['cls']] += 1
   chk.count('events_validated', n_events)
   chk.count('events_rejected', rejected)
   chk.notes['event_stats'] = dict(sorted(stats.items()))
@@ -156,6 +163,13 @@ def run(chk):
   chk.require(stats['events_with_fresh_outputs'] > 0, 'vacuous: no operator produced a new DNA')
   chk.require(stats['exact_semantics_compared'] > 100, 'vacuous: exact algebra semantics hardly compared')
   chk.require(stats['swap_changed_dna'] > 0, 'vacuous: Swap never swapped')
+  chk.require(stats['instance_reuse_calls:no_random_state'] > 0 and stats['instance_reuse_calls:seeded'] > 0,
+              'vacuous: operator instances never re-applied')
+  for cls in ('recombinators.Average', 'recombinators.WeightedAverage', 'recombinators.Sample', 'recombinators.Uniform',
+              'mutators.Uniform', 'selectors.Sample', 'selectors.Proportional', 'selectors.Top'):
+    chk.require(stats['instance_reused:' + cls] > 0, f'vacuous: no instance of {cls} was applied repeatedly')
+  chk.require(stats['new_fitness_changed_result:recombinators.WeightedAverage'] > 0,
+              'vacuous: fitness-based weights never changed the result of WeightedAverage (no float space / equal floats)')
   chk.require(sum(v for k, v in stats.items() if k.startswith('raised:')) < n_events // 20,
               'more than 5% of the applications raised: the harness does not drive the operators properly')
 
